@@ -467,9 +467,62 @@ Proof.
         rewrite <- !Z.leb_le, <- andb_true_iff in Hc. congruence.
 Qed.
 
+(* ------------------------------------------------------------------ Setup *)
+
+(* every layout Setup can configure *)
+Definition layout_ok (c : cfg) : Prop := node_bits c = 8 \/ node_bits c = 9 \/ node_bits c = 10.
+
+Lemma layout_okb_spec c : layout_okb c = true <-> layout_ok c.
+Proof. unfold layout_okb, layout_ok. rewrite !orb_true_iff, !Z.eqb_eq. tauto. Qed.
+
+Lemma apply_opt_layout c o : layout_ok c -> layout_ok (apply_opt c o).
+Proof.
+  unfold layout_ok. intros H. destruct o as [ns|m|]; cbn [apply_opt node_bits]; try exact H.
+  destruct (m =? 8) eqn:E8; [apply Z.eqb_eq in E8; cbn [orb]; lia|].
+  destruct (m =? 9) eqn:E9; [apply Z.eqb_eq in E9; cbn [orb]; lia|]. cbn [orb]. lia.
+Qed.
+
+(* whatever the options, Setup leaves one of the three layouts the theorems are stated for *)
+Theorem setup_from_layout opts : forall cur, layout_ok cur -> layout_ok (setup_from cur opts).
+Proof.
+  unfold setup_from. induction opts as [|o opts IH]; intros cur H; cbn [fold_left]; [exact H|].
+  apply IH, apply_opt_layout, H.
+Qed.
+Theorem setup_layout opts : layout_ok (setup opts).
+Proof. apply setup_from_layout. unfold layout_ok. cbn. lia. Qed.
+
+(* the epoch is the last UseEpoch instant floored to the millisecond (else the previous one); a well-formed start and
+   well-formed epoch options give a configuration of the property's quantifier, so every theorem above applies *)
+Definition opt_ok (o : opt) : Prop :=
+  match o with OEpoch ns => Y2000 <= ns / 1000000 < 2 ^ 62 | _ => True end.
+Theorem setup_from_valid opts : forall cur, valid_cfg cur = true -> Forall opt_ok opts ->
+  valid_cfg (setup_from cur opts) = true.
+Proof.
+  unfold setup_from. induction opts as [|o opts IH]; intros cur H Hf; cbn [fold_left]; [exact H|].
+  inversion Hf as [|? ? Ho Hf']; subst. apply IH; [|exact Hf'].
+  pose proof (valid_cfg_spec cur H) as [Hl He].
+  pose proof (apply_opt_layout cur o Hl) as Hl'. unfold layout_ok in Hl'.
+  unfold valid_cfg. rewrite !andb_true_iff, !orb_true_iff, !Z.eqb_eq, Z.leb_le, Z.ltb_lt.
+  split; [split; [tauto|]|]; destruct o; cbn [apply_opt epoch opt_ok] in *; lia.
+Qed.
+
+(* NodeAtLowest can only switch on, UseNodeMode and UseEpoch: the last one wins *)
+Theorem setup_from_app cur o1 o2 : setup_from cur (o1 ++ o2) = setup_from (setup_from cur o1) o2.
+Proof. unfold setup_from. apply fold_left_app. Qed.
+Theorem setup_lowest_sticky opts : forall cur, node_low cur = true -> node_low (setup_from cur opts) = true.
+Proof.
+  unfold setup_from. induction opts as [|o opts IH]; intros cur H; cbn [fold_left]; [exact H|].
+  apply IH. destruct o; cbn [apply_opt node_low]; auto.
+Qed.
+
+Lemma all_ones_node c : layout_ok c -> holds_setup (id_fields c (-1)) = true.
+Proof.
+  destruct c as [e nb low]. unfold layout_ok. cbn [node_bits]. intros [ -> | [ -> | -> ] ]; destruct low; vm_compute; reflexivity.
+Qed.
+
 Theorem accept_sound : forall k, case_accept k = true -> case_holds k = true.
 Proof.
-  intros [c id f p x|c id1 id2 f1 f2|c id s r|c s r|c t mn mx ps|c b e mn mx ps|ms off]; cbn [case_accept case_holds]; intros Ha.
+  intros [c id f p x|c id1 id2 f1 f2|c id s r|c s r|c t mn mx ps|c b e mn mx ps|cur opts p0 fm f1|ms off]; cbn [case_accept case_holds]; intros Ha.
   - destruct (valid_cfg c && in_dom id) eqn:G; [|reflexivity]. apply andb_prop in G as [Hv Hd].
     rewrite !andb_true_iff in Ha. destruct Ha as [[Hf Hp] Hx].
     apply z3_eqb_eq in Hf, Hp, Hx. subst. apply model_holds_fields; assumption.
@@ -489,13 +542,14 @@ Proof.
   - destruct (valid_cfg c) eqn:Hv; [|reflexivity].
     pose proof (model_holds_between c b e ps Hv) as H. destruct (time_between_id c b e) as [a b'].
     rewrite !andb_true_iff in Ha. destruct Ha as [[Hmn Hmx] Hps]. apply Z.eqb_eq in Hmn, Hmx. subst. apply H. exact Hps.
+  - destruct (layout_okb cur) eqn:Hl; [|reflexivity]. apply layout_okb_spec in Hl.
+    cbv zeta in Ha. rewrite !andb_true_iff in Ha. destruct Ha as [[_ Hm] _]. apply z3_eqb_eq in Hm. subst fm.
+    apply all_ones_node, setup_from_layout, Hl.
   - reflexivity.
 Qed.
 
 (* ------------------------------------------------------------------ the clauses as the property words them *)
 
-(* every layout Setup can configure *)
-Definition layout_ok (c : cfg) : Prop := node_bits c = 8 \/ node_bits c = 9 \/ node_bits c = 10.
 
 Theorem split_recombine c id : layout_ok c -> 0 <= id < 2 ^ 63 ->
   let '(t, n, s) := id_fields c id in
